@@ -18,7 +18,7 @@ pids = sys.argv[1:] or sorted(os.listdir(OUT))
 for pid in pids:
     for mk in sorted(os.listdir(os.path.join(OUT, pid))):
         src = os.path.join(OUT, pid, mk)
-        if not os.path.exists(os.path.join(src, "patch.diff")):
+        if not all(os.path.exists(os.path.join(src, f)) for f in ("patch.diff", "demo.py", "notes.md")) or os.path.exists("/verif/seeded/%s-%s" % (pid, mk)):
             continue
         sh("git -C %s checkout -- . && git -C %s clean -fdq" % (WT, WT))
         env = "cd %s && PYTHONPATH=%s PYTHONDONTWRITEBYTECODE=1" % (WT, WT)
